@@ -305,7 +305,10 @@ class World(EventDispatcher):
         the :meth:`delete_entity` method. If that method is changed,
         those changes should be duplicated here as well.
         """
-        for entity in self._dead_entities:
+        # Unmark entities one at a time, so that a failure (unknown
+        # entity) does not repeat itself at every following call
+        while self._dead_entities:
+            entity = self._dead_entities.pop()
 
             for component_type, component in self._entities[entity].items():
                 self._components[component_type].discard(entity)
